@@ -253,9 +253,15 @@ def find_read_loop(f):
     if not heads:
         raise Unsupported(f"no loop found in {f.name}")
     carried = loop_carried(f, heads[0])
-    if len(carried) != 1 or f.locals[carried[0]] not in INT_TYPES:
+    ints = [l for l in carried if f.locals[l] in INT_TYPES]
+    if len(ints) != 1:
         raise Unsupported(f"read loop: expected one integer counter carried across iterations, found {[(l, f.locals[l]) for l in carried]}")
-    return heads[0], carried[0]
+    global EXTRA_CARRIED
+    EXTRA_CARRIED = [(l, f.locals[l]) for l in carried if l != ints[0]]
+    return heads[0], ints[0]
+
+
+EXTRA_CARRIED = []
 
 
 def iterations(ctx, prog, k, viol, from_head=False):
@@ -275,6 +281,11 @@ def iterations(ctx, prog, k, viol, from_head=False):
     head, counter = find_read_loop(f)
     args = [Ref(st.roots['fb']), Ref(Cell(Unit(), 'stream')), FnItem('verif_handler')]
     bind = {'Kind': 'AmqpFrameKind', 'S': 'VerifStream', 'F': 'VerifHandler'}
+    if from_head and EXTRA_CARRIED:
+        # the loop carries more state than the byte counter (a memo, a flag): its invariant is not known, so the step cannot start from an
+        # arbitrary loop-head state; the loop is unrolled one iteration further from the function entry instead (a bound, and said so)
+        ctx.bound('read_loop_fallback', f"loop carries {EXTRA_CARRIED} besides the byte counter: inductive step replaced by unrolling k+1 = {k + 1} iterations from the function entry")
+        return iterations(ctx, prog, k + 1, viol, from_head=False) if k + 1 > 2 else 0
     if from_head:
         # stop at the first arrival at the loop head, replace the counter by an arbitrary value, continue
         br0 = z3.BitVec('bytes_read.before', 64)
